@@ -30,8 +30,8 @@ GIT_ENV = dict(os.environ, GIT_CONFIG_NOSYSTEM="1", GIT_CONFIG_GLOBAL="/dev/null
 def git(cwd: Path, *args: str) -> str:
     r = subprocess.run(("git", *args), cwd=cwd, env=GIT_ENV, capture_output=True)
     if r.returncode != 0:
-        raise RuntimeError(f"git {' '.join(args)} failed: {r.stderr.decode()[-300:]}")
-    return r.stdout.decode()
+        raise RuntimeError(f"git {' '.join(args)!r} failed: {r.stderr.decode(errors='replace')[-300:]}")
+    return os.fsdecode(r.stdout)       # file names are bytes: undecodable ones come back as surrogate escapes, like os.listdir's
 
 
 def snapshot(ws: Path) -> dict[str, str]:
@@ -61,6 +61,25 @@ def snapshot(ws: Path) -> dict[str, str]:
                 out[r] = "o"
 
     walk(ws, "", False)
+    return out
+
+
+def parse_output(text: str) -> dict:
+    lines = text.splitlines()
+    would = [l[len("Would remove "):] for l in lines if l.startswith("Would remove ")]
+    removed = [l[len("Remove "):] for l in lines if l.startswith("Remove ")]
+    return {"would": would, "removed": removed, "asked": []}
+
+
+def invoke_subprocess(args: list[str], cwd: Path, inp: str | None):
+    """The command in an interpreter of its own (`python -m pytask clean …`), output taken as bytes: used for file names
+    that are not valid UTF-8, which an in-process runner's text streams could not carry."""
+    env = dict(os.environ, COLUMNS="4000", LINES="50", PYTHONDONTWRITEBYTECODE="1")
+    r = subprocess.run([sys.executable, "-m", "pytask", *args], cwd=cwd, env=env, capture_output=True,
+                       input=inp.encode() if inp else None, timeout=300)
+    text = os.fsdecode(r.stdout)
+    out = parse_output(text)
+    out.update({"exit": r.returncode, "tail": "" if r.returncode == 0 else (text + os.fsdecode(r.stderr))[-600:], "exc": ""})
     return out
 
 
@@ -151,7 +170,7 @@ def run_case(case: dict, base: str | None) -> dict:
             args = ["clean", *common]
             if mode != "default":
                 args += ["--mode", mode]
-            r = invoke(args + paths, cwd, step.get("input"))
+            r = (invoke_subprocess if case.get("runner") == "subprocess" else invoke)(args + paths, cwd, step.get("input"))
             r["mode"] = mode
             r["after"] = snapshot(ws)
             runs.append(r)
